@@ -25,12 +25,31 @@ import (
 	"time"
 
 	"tunnox-core/internal/cloud/repos"
+	"tunnox-core/internal/core/storage"
 	"tunnox-core/internal/packet"
 	"tunnox-core/internal/protocol/session"
 	"tunnox-core/verifharness/drivers/c08/wire"
 	"tunnox-core/verifharness/fw"
+	"tunnox-core/verifharness/sched"
 	"tunnox-core/verifharness/srvkit"
 )
+
+// gatedReads puts a scheduler gate in front of reads of connection records
+// (tunnox:conn_state:<conn>).  Only goroutines the driver started through the scheduler park
+// there - a two-step lookup (LkBegin .. LkEnd): FindClientNode has read the client index and
+// waits before reading the record the index named; everything else passes straight through.
+type gatedReads struct {
+	storage.Storage
+	s *sched.Sched
+}
+
+func (g *gatedReads) Get(key string) (any, error) {
+	if strings.HasPrefix(key, "tunnox:conn_state:") {
+		g.s.Gate("cs.GetRecord", map[string]any{"key": key})
+		defer g.s.After()
+	}
+	return g.Storage.Get(key)
+}
 
 // Discrete clock of the model -> real time.  Registration lifetime = 2 ticks.
 //
@@ -81,11 +100,17 @@ type cluster struct {
 	connOf  map[string]string       // real connection id -> model name
 	nodeOf  map[string]string       // real node id -> model node name
 	peers   map[string]*peer
+	sch     *sched.Sched
+	lkProc  string // scheduler process of the two-step lookup in flight
+	nLk     int
 	cancel  context.CancelFunc
 	closers []func()
 }
 
 func (cl *cluster) Close() {
+	if cl.sch != nil {
+		cl.sch.Drain(2 * time.Second)
+	}
 	for _, p := range cl.peers {
 		p.ln.Close()
 	}
@@ -158,7 +183,8 @@ func newCluster(be string, nodes, clients []string) (*cluster, error) {
 		return nil, err
 	}
 	cl := &cluster{nodes: nodes, srv: map[string]*srvkit.Server{}, w: w, creds: map[string]cred{}, byID: map[int64]string{},
-		conns: map[string]*srvkit.Conn{}, connOf: map[string]string{}, nodeOf: map[string]string{}, peers: map[string]*peer{}, cancel: cancel}
+		conns: map[string]*srvkit.Conn{}, connOf: map[string]string{}, nodeOf: map[string]string{}, peers: map[string]*peer{}, cancel: cancel, sch: sched.New(false)}
+	cl.sch.Watchdog = 2 * time.Second
 	for _, n := range nodes {
 		s, err := srvkit.NewServer(srvkit.Options{NodeID: "node-" + n, HeartbeatTimeout: time.Hour, CleanupInterval: time.Hour})
 		if err != nil {
@@ -224,7 +250,7 @@ func newCluster(be string, nodes, clients []string) (*cluster, error) {
 			cl.Close()
 			return nil, err
 		}
-		s.SM.SetConnectionStateStore(session.NewConnectionStateStore(st, "node-"+n, regTTL))
+		s.SM.SetConnectionStateStore(session.NewConnectionStateStore(&gatedReads{Storage: st, s: cl.sch}, "node-"+n, regTTL))
 		pc := session.DefaultCrossNodePoolConfig()
 		pc.MinConns, pc.MaxConns, pc.DialTimeout = 0, 4, 2*time.Second
 		pool := session.NewCrossNodePool(s.Ctx, st, "node-"+n, pc)
@@ -483,6 +509,36 @@ func drive(env *fw.Env, b fw.Behaviour) *fw.Trace {
 			if herr == nil || len(out) != 0 || !c.Closed() {
 				return &fw.Trace{Status: fw.DriverError, Note: fmt.Sprintf("step %d: the response write did not fail (herr=%v, %d packets written)", i, herr, len(out))}
 			}
+		case "LkBegin":
+			// FindClientNode on node s.N as a scheduled process: it reads the client index and parks
+			// in front of the read of the record the index named
+			if cl.lkProc != "" {
+				return &fw.Trace{Status: fw.DriverError, Note: "two lookups in flight"}
+			}
+			cl.nLk++
+			name := fmt.Sprintf("lk%d", cl.nLk)
+			store, id := cl.srv[s.N].SM.GetConnectionStateStore(), cl.creds[s.X].id
+			st := cl.sch.Start(name, func() any {
+				node, conn, err := store.FindClientNode(context.Background(), id)
+				if err != nil {
+					return "err:" + short(err.Error())
+				}
+				return node + "/" + conn
+			})
+			if st != sched.Parked {
+				return &fw.Trace{Status: fw.Unrealisable, Note: "the lookup did not reach its second read (" + st + ": " + fmt.Sprint(cl.sch.Result(name)) + ")"}
+			}
+			cl.lkProc = name
+			ev = fw.Event{"ev": "LkBegin", "m": s.N, "x": s.X}
+		case "LkEnd":
+			if cl.lkProc == "" {
+				return &fw.Trace{Status: fw.DriverError, Note: "no lookup in flight"}
+			}
+			if st, _ := cl.sch.Step(cl.lkProc); st != sched.Done {
+				return &fw.Trace{Status: fw.DriverError, Note: "the parked lookup did not finish: " + st}
+			}
+			ev = fw.Event{"ev": "LkEnd", "m": s.N, "x": s.X, "res": fmt.Sprint(cl.sch.Result(cl.lkProc))}
+			cl.lkProc = ""
 		case "HB":
 			c := cl.conns[s.C]
 			if c == nil || c.Closed() {
@@ -532,13 +588,29 @@ var firstThree = `{"ptrShape", "condIdxDelete", "hbRefresh"}` // repaired by pat
 // set of repairs, so one TLC run covers the as-is, the partly and the fully repaired code
 func mcJob(name, nodes string, nconns int, clients, shapes, fixsets string) fw.TLCJob {
 	return fw.TLCJob{Name: name, Module: "ConnState", Cfg: "ConnState_mc.cfg", Workers: 8, Timeout: 14 * time.Minute, Consts: map[string]string{
-		"NODES": nodes, "NCONNS": fmt.Sprint(nconns), "CLIENTS": clients, "SHAPES": shapes, "FIXSETS": fixsets}}
+		"NODES": nodes, "NCONNS": fmt.Sprint(nconns), "CLIENTS": clients, "SHAPES": shapes, "FIXSETS": fixsets,
+		"LOOKUPS": "FALSE", "WLOOKUP": "FALSE", "INVS": "Repaired LookupPure"}}
 }
 
 func genJob(name, nodes string, nconns int, clients string, maxClock, maxHist int, shapes, fixes, only string) fw.TLCJob {
+	lookups := "FALSE"
+	if only == "lookup" {
+		lookups = "TRUE"
+	}
 	return fw.TLCJob{Name: name, Module: "ConnState", Cfg: "ConnState_gen.cfg", Workers: 1, Consts: map[string]string{
 		"NODES": nodes, "NCONNS": fmt.Sprint(nconns), "CLIENTS": clients, "MAXCLOCK": fmt.Sprint(maxClock), "MAXHIST": fmt.Sprint(maxHist),
-		"SHAPES": shapes, "FIXES": fixes, "ONLY": only}}
+		"SHAPES": shapes, "FIXES": fixes, "ONLY": only, "LOOKUPS": lookups}}
+}
+
+// two-step lookups: read-only as-is (LookupPure), and the writing-lookup design whose only route to
+// a violation is the deviation "lookupErased"
+func lkJob(name, nodes string, nconns int, fixsets string, writing bool) fw.TLCJob {
+	j := mcJob(name, nodes, nconns, `{"X"}`, `{"str"}`, fixsets)
+	j.Consts["LOOKUPS"], j.Consts["WLOOKUP"], j.Consts["INVS"] = "TRUE", "FALSE", "Repaired LookupPure"
+	if writing {
+		j.Consts["WLOOKUP"], j.Consts["INVS"] = "TRUE", ""
+	}
+	return j
 }
 
 const (
@@ -564,12 +636,19 @@ func main() {
 					mcJob("mc:2x3", two, 3, `{"X", "Y"}`, `{"str"}`, both),
 					mcJob("mc:3nodes:1x3", three, 3, `{"X"}`, `{"str"}`, both),
 					mcJob("mc:1x4", two, 4, `{"X"}`, `{"str"}`, "{"+allFixes+"}"),
+					lkJob("mc:lookup:1x3", two, 3, both, false),
+					lkJob("mc:lookup:3nodes:1x2", three, 2, both, false),
+					lkJob("mc:writing-lookup:1x3", two, 3, "{"+allFixes+"}", true),
 				}
 			}
 			// quick: the string shape with the three repairs of C08-1..3 and with all four (the code
 			// without any repair, the pointer and map shapes: thorough; their routes to a violation
 			// are also driven from gen:dev)
-			return []fw.TLCJob{mcJob("mc:1x3", two, 3, `{"X"}`, `{"str"}`, "{"+firstThree+", "+allFixes+"}")}
+			return []fw.TLCJob{
+				mcJob("mc:1x3", two, 3, `{"X"}`, `{"str"}`, "{"+firstThree+", "+allFixes+"}"),
+				lkJob("mc:lookup:1x2", two, 2, "{"+allFixes+"}", false),
+				lkJob("mc:writing-lookup:1x2", two, 2, "{"+allFixes+"}", true),
+			}
 		},
 		// Histories are generated from the as-is model: event enabledness does not depend on the
 		// store, and the as-is state graph distinguishes more states (deviation flags), so its
@@ -585,6 +664,8 @@ func main() {
 					genJob("gen:dev", two, 3, `{"X", "Y"}`, 3, 8, `{"str", "ptr"}`, "{}", "dev"),
 					genJob("gen:lost", two, 3, `{"X", "Y"}`, 3, 8, `{"str"}`, allFixes, "lost"),
 					genJob("gen:close", two, 3, `{"X", "Y"}`, 3, 8, `{"str"}`, allFixes, "close"),
+					genJob("gen:lookup", three, 3, `{"X"}`, 2, 9, `{"str"}`, allFixes, "lookup"),
+					genJob("gen:reauth", two, 3, `{"X", "Y"}`, 3, 8, `{"str"}`, allFixes, "reauth"),
 					genJob("gen:asis", two, 3, `{"X", "Y"}`, 3, 7, `{"str"}`, "{}", "all"),
 					genJob("gen:asis-ptr", two, 3, `{"X"}`, 3, 8, `{"ptr"}`, "{}", "all"),
 					genJob("gen:3nodes", three, 3, `{"X"}`, 3, 7, `{"str"}`, "{}", "all"),
@@ -594,6 +675,8 @@ func main() {
 				genJob("gen:dev", two, 3, `{"X"}`, 3, 7, `{"str", "ptr"}`, "{}", "dev"),
 				genJob("gen:lost", two, 3, `{"X"}`, 3, 8, `{"str"}`, allFixes, "lost"),
 				genJob("gen:close", two, 3, `{"X"}`, 3, 8, `{"str"}`, allFixes, "close"),
+				genJob("gen:lookup", two, 2, `{"X"}`, 2, 8, `{"str"}`, allFixes, "lookup"),
+				genJob("gen:reauth", two, 3, `{"X"}`, 3, 7, `{"str"}`, allFixes, "reauth"),
 				genJob("gen:asis", two, 3, `{"X"}`, 3, 7, `{"str"}`, "{}", "all"),
 				genJob("gen:two", two, 2, `{"X", "Y"}`, 2, 7, `{"str"}`, "{}", "all"),
 			}
@@ -601,9 +684,12 @@ func main() {
 		MaxBehSrc: func(env *fw.Env, src string) int {
 			// counts are per generation job AFTER expansion to the three wirings
 			if env.Tier == "thorough" {
-				return 480
+				return 420
 			}
-			return 45
+			if src == "gen:asis" || src == "gen:two" {
+				return 30
+			}
+			return 39
 		},
 		Expand: func(env *fw.Env, src string, raw json.RawMessage) []json.RawMessage {
 			var steps []step
@@ -643,11 +729,12 @@ func main() {
 			}
 			return n >= 3
 		},
-		Rule: "one behaviour per transition (state, session event incl. undeliverable handshakes and closes by cause peer/cmd/sweep/kick) of the bounded ConnState state graph (shortest history to the state + the event), plus targeted covers: every model-predicted route to a deviation (gen:dev), undeliverable handshakes while connected elsewhere (gen:lost), closes of the last connection by command/kick/sweep (gen:close); each replayed on the memory, Redis and tiered wirings; non-trivial = at least 3 session events",
+		Rule: "one behaviour per transition (state, session event incl. undeliverable handshakes and closes by cause peer/cmd/sweep/kick) of the bounded ConnState state graph (shortest history to the state + the event), plus targeted covers: every model-predicted route to a deviation (gen:dev), undeliverable handshakes while connected elsewhere (gen:lost), closes of the last connection by command/kick/sweep (gen:close), two-step lookups overtaken by a handshake elsewhere / a cleanup and followed by a heartbeat (gen:lookup), successful re-handshakes on an authenticated connection that the store no longer names (gen:reauth); each replayed on the memory, Redis and tiered wirings; non-trivial = at least 3 session events",
 		Assumptions: []string{
 			"nodes are SessionManager assemblies in one process sharing a store (srvkit); client identities are provisioned on every node's config repository",
 			"registration lifetime 500 ms = 2 model ticks of 300 ms; behaviours whose steps overran the margin are discarded as inconclusive",
 			"miniredis stands in for Redis; its virtual clock is advanced together with the real sleep",
+			"a two-step lookup is FindClientNode run as a scheduler process whose read of the connection record is parked at a gate in front of the node's storage (harness/sched); nothing is demanded of its own answer",
 			"a peer listener per node stands in for CrossNodeListener to make the forwarding decision of SendCommandToClient observable",
 			"an undeliverable handshake response is a transport that dies at the server's first write after the challenge phase; a heartbeat timeout is the victim's LastActiveAt moved one hour back followed by ClientRegistry.CleanupStale with the sweep's CloseConnection callback; every close cause ends with the read loop over (CloseConnection)",
 		},
